@@ -366,8 +366,19 @@ def judge(prep, inputs_json: dict, timeout: float, excl=()) -> dict:
             if not isinstance(getattr(obj, "emitted", None), list):
                 obj.emitted = []
 
+            if "message_data" in cs.ghost_fields:
+                if not isinstance(getattr(obj, "message_data", None), list):
+                    obj.message_data = []
+                if not isinstance(getattr(obj, "message_is_text", None), list):
+                    obj.message_is_text = []
+
             def _emit(name, *a, _o=obj, _real=getattr(type(obj), "emit", None), **kw):
                 _o.emitted.append(name)
+                if name == "message" and isinstance(getattr(_o, "message_data", None), list):
+                    arg_ = a[0] if a else None
+                    _o.message_data.append(arg_.encode("utf8") if isinstance(arg_, str) else
+                                           (bytes(arg_) if isinstance(arg_, (bytes, bytearray)) else b""))
+                    _o.message_is_text.append(isinstance(arg_, str))
                 if _o is inputs.get("self") and c.at_emit and "old" in emit_st:
                     # the state a listener observes (same clauses as the prover's at_emit obligations)
                     for k_, r_ in enumerate(c.at_emit):
